@@ -159,6 +159,27 @@ pub fn run(ctx: &mut Ctx) {
         if !ctx.is_fuzz() {
             ctx.rec.note(&format!("dig|{}|{}/{}", name, ctx.shard, ctx.nshards), &format!("{:016x}", dig));
         }
+        // back-to-back executions through the SAME instruction set on operands that compare equal
+        // (or almost) and are different values: an instruction that remembers its last operands or
+        // result answers the second one wrongly. Every shard runs these (they are few).
+        if !ctx.is_fuzz() {
+            let next = |f: f32| f32::from_bits(f.to_bits() + 1);
+            let fpairs: [(f32, f32); 8] = [(0.0, -0.0), (-0.0, 0.0), (1.5, next(1.5)), (next(0.25), 0.25), (0.25, 0.2504), (f32::NAN, f32::NAN), (1.0e30, -1.0e30), (100.0, 100.0)];
+            let ipairs: [(i32, i32); 5] = [(0, -0), (7, 8), (i32::MAX, i32::MIN), (-1, 1), (5, 5)];
+            for (j, ((fa1, fa2), (ia1, ia2))) in fpairs.iter().zip(ipairs.iter().cycle()).enumerate() {
+                for (fa, ia) in [(*fa1, *ia1), (*fa2, *ia2), (*fa1, *ia1)] {
+                    let mut s = Snap::empty();
+                    s.i = vec![ia, 3, 9];
+                    s.f = vec![fb(fa), fb(2.5), fb(-1.0)];
+                    s.b = vec![true, false];
+                    s.n = vec!["a".into(), "b".into()];
+                    let mut st = build_state(&s);
+                    let _ = judged_step("C04", name, &mut st, &mut is, &cache, &mut ctx.rec, judge, &format!("back-to-back sequence {} operand {} / {}", j, fa, ia));
+                    ctx.rec.count("steps", 1);
+                    ctx.rec.count("back_to_back_steps", 1);
+                }
+            }
+        }
         ctx.rec.set_add("instructions", name);
     }
     ctx.rec.checkpoint();
